@@ -25,6 +25,12 @@ structure State (α : Type) where
   width : Nat
   /-- `total` setter rejected a negative value (ValueError) – float cancellation only -/
   err : Bool := false
+  /-- `num_buckets` as the code counts it: +1 per inserted value, +1 (sic) per merge in
+  `_compress_buckets`, −1 per deleted entry — an additional variable a history callback can record,
+  not the number of stored entries -/
+  numBuckets : Nat := 0
+  /-- `num_max_buckets`: running maximum of `num_buckets`, taken right after an insertion only -/
+  numMaxBuckets : Nat := 0
   deriving BEq
 
 variable {α : Type} [Num α]
@@ -54,6 +60,21 @@ def compress (m : Nat) : Nat → List (α × α) → List (List (α × α)) → 
       | _ => row :: rest
     else row :: rest
 
+/-- number of merges `_compress_buckets` performs (same recursion as `compress`) -/
+def compressMerges (m : Nat) : Nat → List (α × α) → List (List (α × α)) → Nat
+  | i, row, rest =>
+    if row.length == m + 1 then
+      match row with
+      | e1 :: e2 :: _ =>
+        let merged := mergeEntries (2 ^ i) e1 e2
+        match rest with
+        | [] => 1
+        | nxt :: rest' =>
+          let nxt' := nxt ++ [merged]
+          if nxt'.length ≤ m then 1 else 1 + compressMerges m (i + 1) nxt' rest'
+      | _ => 0
+    else 0
+
 /-- `_insert_bucket` -/
 def insert (c : Cfg α) (s : State α) (v : α) : State α :=
   let width := s.width + 1
@@ -66,8 +87,13 @@ def insert (c : Cfg α) (s : State α) (v : α) : State α :=
   let rows := match s.rows with
     | [] => [[(v, Num.zero)]]
     | r0 :: rest => compress c.m 0 (r0 ++ [(v, Num.zero)]) rest
+  let merges := match s.rows with
+    | [] => 0
+    | r0 :: rest => compressMerges c.m 0 (r0 ++ [(v, Num.zero)]) rest
   { s with rows := rows, width := width, variance := s.variance + incr, total := total,
-           err := s.err || Num.lt total Num.zero }
+           err := s.err || Num.lt total Num.zero,
+           numBuckets := s.numBuckets + 1 + merges,
+           numMaxBuckets := max s.numMaxBuckets (s.numBuckets + 1) }
 
 /-- `while len(buckets) > 1 and buckets[-1].idx == 0: buckets.pop()` -/
 def trimRows (rows : List (List (α × α))) : List (List (α × α)) :=
@@ -92,7 +118,7 @@ def deleteOldest (s : State α) : State α :=
       let incr := e.2 + (Num.ofNat (sz * width) : α) * (bm - wm) * (bm - wm) / Num.ofNat (sz + width)
       let rows := if tl.isEmpty then trimRows s.rows.dropLast else s.rows.dropLast ++ [tl]
       { s with rows := rows, width := width, total := total, variance := s.variance - incr,
-               err := s.err || Num.lt total Num.zero }
+               err := s.err || Num.lt total Num.zero, numBuckets := s.numBuckets - 1 }
 
 /-- `_calculate_threshold`; the caller guarantees `n0, n1 > min_window_size` -/
 def threshold (c : Cfg α) (s : State α) (n0 n1 : Nat) : Option α :=
@@ -142,7 +168,8 @@ def step (c : Cfg α) (s : State α) (v : α) : State α :=
   if s.n % c.clock == 0 && c.minN < s.width then checkLoop c (numEntries s + 1) s else s
 
 def reset (s : State α) : State α :=
-  { s with n := 0, drift := false, rows := [[]], total := Num.zero, variance := Num.zero, width := 0, err := false }
+  { s with n := 0, drift := false, rows := [[]], total := Num.zero, variance := Num.zero, width := 0, err := false,
+           numBuckets := 0, numMaxBuckets := 0 }
 end ADWIN
 
 /-! ## KSWIN
